@@ -5,7 +5,7 @@ ROOT = os.path.dirname(os.path.dirname(os.path.abspath(__file__)))
 sys.path.insert(0, ROOT)
 import check
 
-HOOK_COMMITS = ["80142e2"]
+HOOK_COMMITS = ["80142e2", "fe501da"]
 
 # per property: (technique, level text, level note, design ref)
 META = {
@@ -15,6 +15,21 @@ META = {
  "C07": ("TLC: MC_Isa (StmtWord(Disasm(w)) = w for all w) + TLC table validation of real disassemble/print/reassemble (exhaustive)",
          "For every 16-bit word the real disassemble_line, its Display text and the words produced by the real parser+assembler from that text at three origins are recorded; TLC checks the statement equals Isa!Disasm(w), the alias/.fill rules, and that every reassembled word equals w. MC_Isa proves the same round trip inside the specification for all words.",
          "Origins sampled at x0000, x3000, xFDFF (label-free statements encode address-independently).", "5 (C07)"),
+ "C08": ("TLC trace validation of real step_in against Machine!StepIn (TV_Machine), full-state projection incl. diff of all memory words",
+         "Every step_in of thousands of recorded executions of the real Simulator is validated by TLC against the TLA+ reference semantics Machine!StepIn: outcome, registers with masks, PC, PSR, saved SP, prefetch flag, MCR, frame stack, instruction count, access observer, keyboard/display buffers, timers and the diff of all 65 536 memory words must equal what the specification computes from the previous state. Scenarios: random machine states with random words at the PC (all opcodes and exception paths, real/virtual traps, privilege checks on/off, strict on/off), structured programs through the real OS image, interrupt schedules (harness devices of all priorities, keyboard interrupts, seeded timers), seeded full-memory images.",
+         "Reference = spec/Machine.tla (written from the ISA and from reading sim.rs); trusts the harness projection (harness/src/machine.rs) and the hooks verif_saved_sp/verif_prefetch/verif_mask.", "5 (C08)"),
+ "C09": ("TLC evaluates Isolation on every logged step of adversarial user-mode runs (TV_Machine)",
+         "For adversarial user-mode states (each addressing mode aimed at each boundary address, real and virtual traps) TLC evaluates the action property Isolation on the logged step: while the machine stays in user mode every address marked by the observer or changed in the full memory diff lies in x3000..xFDFF, rejected attempts leave memory, keyboard and display unchanged, RTI is rejected; when the step enters supervisor mode only the vector entry and the two supervisor-stack pushes lie outside user space.",
+         "Accesses are observed through the access observer and the full memory diff; privilege in effect is read from the PSR before/after the step.", "5 (C09)"),
+ "C16": ("TLC trace validation: no Panic event, errors in SimErr, prefetch_pc value (TV_Machine)",
+         "Random full-memory images, PC at every page boundary, all 16 flag combinations, devices and internal-register mappings attached; every public call runs under catch_unwind and a panic is a Panic event for which the specification has no action. TLC also checks every failure is a SimErr variant and prefetch_pc() equals (pc - [fetch done]) mod 2^16 as the specification defines it.",
+         "Harness profile has overflow-checks and debug-assertions on (arithmetic overflow panics as in a debug build).", "5 (C16)"),
+ "C27": ("TLC evaluates DepthOK (calls - returns, saturating) and exact frame records on every logged step (TV_Machine)",
+         "DepthOK classifies each successful step from the fetched word and the logged outcome (JSR/JSRR/TRAP/interrupt/exception entry +1, RET/JMP R7/RTI -1 saturating) and requires the reported depth to follow; with debug frames on the frame list (caller, callee/vector, kind, frame pointer, arguments from registered or built-in signatures) is compared exactly with the specification's.",
+         "Frame contents are compared against spec/Machine.tla FrameRec (transcribes frame.rs).", "5 (C27)"),
+ "C28": ("TLC compares the observer map with the reference model's access sets and evaluates ObsProp on logged marks vs. the full memory diff (TV_Machine)",
+         "After every event the whole observer map (READ/WRITTEN/MODIFIED per address) must equal what Machine!StepIn computes; ObsProp additionally states on the logged data alone that MODIFIED implies WRITTEN, every non-I/O word whose value changed is WRITTEN+MODIFIED and a WRITTEN-only word did not change; host accesses through untracked contexts must not alter the map.",
+         "READ marks at I/O addresses are compared as the code produces them (the property exempts them).", "5 (C28)"),
  "C35": ("TLC: MC_Offsets (arithmetic vs shift definition, all N and values) + TLC table validation of real Offset::new/new_trunc",
          "MC_Offsets proves for all N in 1..16 and all 16-bit values that the property's arithmetic statement equals the shift-based computation; the real Offset::<i16|u16,N>::new/new_trunc/get results are validated record by record against the arithmetic statement: boundary+random values in quick, all 2 097 152 (N, value) cases in thorough.",
          "The 32 monomorphic instantiations are generated by macro in harness/src/tables.rs.", "5 (C35)"),
